@@ -81,6 +81,8 @@ pub fn pool() -> Vec<V> {
         V::s("aé😀"),
         V::s("1"),
         V::s("UTC"),
+        V::s("Asia/Tokyo"),
+        V::s("America/New_York"),
         V::s("°C"),
         V::s("°"),
         V::s("("),
@@ -219,6 +221,19 @@ const MACRO_SHAPES: [&str; 8] = [
     "{A}.{F}(1, {B})",
 ];
 
+const VAR_SLOT_SHAPES: [&str; 10] = [
+    "{A}.{F}(u.v, 1)",
+    "{A}.{F}(u.v.w, u)",
+    "{A}.{F}(u[0], 1)",
+    "{A}.{F}(g(u), 1)",
+    "{A}.{F}(u.g(), 1)",
+    "{A}.{F}([u], 1)",
+    "{A}.{F}(-u, 1)",
+    "{A}.{F}(acc, u.v, acc, 0)",
+    "{A}.{F}(u.v, x, acc, 0)",
+    "{A}.{F}({A}.{F}(u.v, 1), 1)",
+];
+
 pub struct Builtins {
     names: Vec<String>,
     pool: Vec<V>,
@@ -288,6 +303,18 @@ impl Builtins {
             acc.nontrivial(&idx);
             return;
         }
+        // the variable slot of a macro holding something that is not an identifier (the slot is
+        // evaluated in an interpreter without bindings)
+        if args.len() == 1 {
+            for lit in [false, true] {
+                for shape in VAR_SLOT_SHAPES {
+                    let mut binds = Vec::new();
+                    let sa = place(args[0], "a", lit, &mut binds);
+                    let src = shape.replace("{A}", &sa).replace("{F}", name);
+                    total(acc, &format!("call {}", name), &src, &binds, json!({"a": args[0].show()}));
+                }
+            }
+        }
         for lit in [false, true] {
             let mut binds = Vec::new();
             let rendered: Vec<String> = args.iter().enumerate().map(|(k, v)| place(v, names[k], lit, &mut binds)).collect();
@@ -345,6 +372,57 @@ impl Tokens {
         }
         if let Some(k) = panic_key(&got) {
             acc.violation(&format!("{} [tokens]", k), json!({"src": src}), "a value or an error".into(), got.show());
+        }
+        if !got.is_compile_fail() {
+            acc.nontrivial(&idx);
+            acc.class(&got.class());
+        }
+        if acc.wants_sample() {
+            acc.sample(json!({"src": src, "observed": got.show().chars().take(120).collect::<String>()}));
+        }
+    }
+}
+
+// ---- character strings: the lexical level --------------------------------------------
+
+/// characters that take part in the inner structure of tokens (prefixes, escapes, exponents,
+/// quotes, f-string braces) plus a few the scanner has no token for
+pub const CHARS: [char; 30] = [
+    'a', 'b', 'f', 'r', 'u', 'x', 'e', '0', '1', '9', '.', '\'', '"', '\\', '{', '}', '(', ')', '[', ']', ',', ':', '-', '+', ' ', '\n', 'é', '?', '#', '\0',
+];
+
+pub struct Chars {
+    maxlen: u32,
+}
+impl Chars {
+    pub fn new(t: Tier) -> Chars {
+        Chars { maxlen: t.pick(4, 5) }
+    }
+    pub fn size(&self) -> u64 {
+        (1..=self.maxlen).map(|l| (CHARS.len() as u64).pow(l)).sum()
+    }
+    pub fn source(&self, mut idx: u64) -> String {
+        let k = CHARS.len() as u64;
+        for l in 1..=self.maxlen {
+            let c = k.pow(l);
+            if idx < c {
+                let d = unrank(idx, &vec![k; l as usize]);
+                return d.iter().map(|i| CHARS[*i as usize]).collect();
+            }
+            idx -= c;
+        }
+        unreachable!()
+    }
+    pub fn run(&self, idx: u64, acc: &mut Acc) {
+        let src = self.source(idx);
+        let binds = [("a", V::Int(1)), ("b", V::s("é")), ("x", V::list(&[V::Int(1)]))];
+        let got = real::eval(&src, &binds);
+        acc.eval();
+        if idx % 4096 == 0 {
+            acc.class(&got.class());
+        }
+        if let Some(k) = panic_key(&got) {
+            acc.violation(&format!("{} [characters]", k), json!({"src": src}), "a value or an error".into(), got.show());
         }
         if !got.is_compile_fail() {
             acc.nontrivial(&idx);
@@ -543,7 +621,9 @@ pub fn replay_families(t: Tier) -> Vec<Family<'static>> {
     let bi: &'static Builtins = Box::leak(Box::new(Builtins::new(t).expect("builtin names")));
     let tk: &'static Tokens = Box::leak(Box::new(Tokens::new(t)));
     let ld: &'static Ladders = Box::leak(Box::new(Ladders::new(t)));
+    let ch: &'static Chars = Box::leak(Box::new(Chars::new(t)));
     vec![
+        Family::new("characters", ch.size(), move |i, a| ch.run(i, a)),
         Family::new("ops", ops.size(), move |i, a| ops.run(i, a)),
         Family::new("builtins", bi.size(), move |i, a| bi.run(i, a)),
         Family::new("tokens", tk.size(), move |i, a| tk.run(i, a)),
@@ -553,7 +633,7 @@ pub fn replay_families(t: Tier) -> Vec<Family<'static>> {
 
 pub fn run(t: Tier) -> i32 {
     let mut rep = Report::new(ID, t, "exploration");
-    rep.rule = "ops: every unary/binary operator, index, `in`, ternary over all ordered pairs of a 53-value boundary pool in literal and bound forms; builtins: every name found in the repository's function/macro/type tables called as function and as method with every argument tuple of arity 0..2 over the pool, arity 3..N over a 13-value pool, and 8 macro shapes; tokens: every space-joined string of 1..N tokens over a 50-token alphabet (operators, brackets, keywords, identifiers, extreme literals, hostile lexemes); ladders: 24 nesting constructs (incl. left-nested chains of every binary operator class) at increasing depths, each rung in its own child process, in two build profiles and on 8 MiB and 2 MiB stacks. Oracle: outcome is a value, an error or a syntax error, never a panic, abort or hang. Non-trivial = the case got past the parser (tokens) / the rung produced a value (ladders) / every ops and builtins case; distinct by case index".to_string();
+    rep.rule = "ops: every unary/binary operator, index, `in`, ternary over all ordered pairs of a 57-value boundary pool in literal and bound forms; builtins: every name found in the repository's function/macro/type tables called as function and as method with every argument tuple of arity 0..2 over the pool, arity 3..N over a 13-value pool, 8 macro shapes, and 10 shapes with a member access, index, call, list or negation in the variable slot of a macro; tokens: every space-joined string of 1..N tokens over a 50-token alphabet (operators, brackets, keywords, identifiers, extreme literals, hostile lexemes); characters: every string of 1..4 (thorough: 5) characters over 30 characters that take part in the inner structure of tokens (prefix letters b f r u x e, digits, point, both quotes, backslash, braces, brackets, comma, colon, signs, blank, line break, a two-byte letter, ?, #, NUL); ladders: 24 nesting constructs (incl. left-nested chains of every binary operator class) at increasing depths, each rung in its own child process, in two build profiles and on 8 MiB and 2 MiB stacks. Oracle: outcome is a value, an error or a syntax error, never a panic, abort or hang. Non-trivial = the case got past the parser (tokens, characters) / the rung produced a value (ladders) / every ops and builtins case; distinct by case index".to_string();
     let fams = replay_families(t);
     let n_ladder_bins = std::env::var("VERIF_DEV_BIN").map(|_| 2).unwrap_or(1);
     for f in fams {
